@@ -3,6 +3,7 @@ package main
 import (
 	"fmt"
 	"go/types"
+	"sort"
 	"strings"
 
 	"golang.org/x/tools/go/ssa"
@@ -280,6 +281,7 @@ func checkC05(c *Ctx, r *Report) {
 		})
 	}
 	r.Floor("K2", inserts, 5)
+	checkKeyForms(c, r, reach)
 
 	// sort dominates success return
 	sorted := 0
@@ -671,4 +673,142 @@ func isParentHelper(fn *ssa.Function) bool {
 		}
 	})
 	return found
+}
+
+
+// checkKeyForms (K3): when entries are stored in the destination map under
+// more than one key spelling (directories with a trailing slash, everything
+// else without), a collision check that looks up only the inserting entry's
+// own spelling cannot see an occupant of the other kind at the same
+// destination. Every insert must therefore be dominated by collision lookups
+// covering every key form in use.
+func checkKeyForms(c *Ctx, r *Report, reach map[*ssa.Function]bool) {
+	pa := newProv(c)
+	type site struct {
+		fn  *ssa.Function
+		mu  *ssa.MapUpdate
+		ord int
+	}
+	_ = pa
+	// the spelling of a key is decided by the outermost normaliser applied to
+	// it; a helper that returns results of several normalisers yields all of
+	// their spellings
+	var formOfValue func(v ssa.Value, fn *ssa.Function, depth int) map[string]bool
+	formOfValue = func(v ssa.Value, fn *ssa.Function, depth int) map[string]bool {
+		out := map[string]bool{}
+		if depth > 6 || v == nil {
+			return out
+		}
+		switch x := v.(type) {
+		case *ssa.Call:
+			sc := x.Call.StaticCallee()
+			if sc == nil || c.funcPkgPath(sc) != filesPath {
+				return out
+			}
+			if strings.HasPrefix(sc.Name(), "Normalize") && sc.Object() != nil && sc.Object().Exported() {
+				out[sc.Name()] = true
+				return out
+			}
+			// helper: union of the forms of its returned values
+			for _, b := range sc.Blocks {
+				if ret, ok := b.Instrs[len(b.Instrs)-1].(*ssa.Return); ok {
+					for _, res := range retResults(ret) {
+						for f := range formOfValue(res, sc, depth+1) {
+							out[f] = true
+						}
+					}
+				}
+			}
+		case *ssa.Phi:
+			for _, e := range x.Edges {
+				for f := range formOfValue(e, fn, depth+1) {
+					out[f] = true
+				}
+			}
+		case *ssa.UnOp:
+			// load of <entry>.Destination: what this function stored there
+			if fa, ok := x.X.(*ssa.FieldAddr); ok && fieldName(fa.X.Type(), fa.Field) == "Destination" {
+				forEachInstr(fn, func(in ssa.Instruction) {
+					st, ok := in.(*ssa.Store)
+					if !ok {
+						return
+					}
+					if fa2, ok := st.Addr.(*ssa.FieldAddr); ok && fieldName(fa2.X.Type(), fa2.Field) == "Destination" && sameValue(fa2.X, fa.X) {
+						for f := range formOfValue(st.Val, fn, depth+1) {
+							out[f] = true
+						}
+					}
+				})
+			}
+		}
+		return out
+	}
+	formOf := func(v ssa.Value, fn *ssa.Function) map[string]bool { return formOfValue(v, fn, 0) }
+	var sites []site
+	forms := map[string]bool{}
+	for _, fn := range sortedFuncs(c, reach) {
+		if c.funcPkgPath(fn) != filesPath {
+			continue
+		}
+		n := 0
+		forEachInstr(fn, func(in ssa.Instruction) {
+			mu, ok := in.(*ssa.MapUpdate)
+			if !ok || !isContentMap(mu.Map.Type()) {
+				return
+			}
+			n++
+			sites = append(sites, site{fn, mu, n})
+			for f := range formOf(mu.Key, fn) {
+				forms[f] = true
+			}
+		})
+	}
+	if len(forms) <= 1 {
+		r.Pass("K3", "destination map uses a single key spelling", "-", "all inserts normalise their key through "+joinSorted(forms))
+		return
+	}
+	for _, s := range sites {
+		covered := map[string]bool{}
+		var keys []ssa.Value
+		forEachInstr(s.fn, func(in ssa.Instruction) {
+			lk, ok := in.(*ssa.Lookup)
+			if !ok || !sameValue(lk.X, s.mu.Map) || !instrDominates(lk, s.mu) {
+				return
+			}
+			for f := range formOf(lk.Index, s.fn) {
+				covered[f] = true
+			}
+			dup := false
+			for _, k := range keys {
+				if sameValue(k, lk.Index) {
+					dup = true
+				}
+			}
+			if !dup {
+				keys = append(keys, lk.Index)
+			}
+		})
+		// one looked-up key has one spelling at run time, whatever the set of
+		// spellings it may have statically: two spellings need two lookups
+		if len(keys) < len(forms) {
+			covered = map[string]bool{}
+			if len(keys) == 1 {
+				for f := range formOf(keys[0], s.fn) {
+					covered["own spelling: "+f] = true
+				}
+			}
+		}
+		// inside a closure: lookups made by the enclosing function before the
+		// closure is created do not count (they concern the tree root only)
+		var missing []string
+		for f := range forms {
+			if !covered[f] {
+				missing = append(missing, f)
+			}
+		}
+		sort.Strings(missing)
+		construct := fmt.Sprintf("insert#%d in %s", s.ord, c.funcKey(s.fn))
+		r.Check(len(missing) == 0, "K3", construct, c.instrPos(s.mu),
+			fmt.Sprintf("entries are keyed under %d spellings (%s) but the collision lookups before this insert cover only {%s}: an occupant of the other kind at the same destination (a file where a directory is added, or a parent directory that is a file) is not detected", len(forms), joinSorted(forms), joinSorted(covered)))
+	}
 }
